@@ -60,7 +60,14 @@ class FactFlow:
             names = set()
             for t in a.targets:
                 _targets(t, names)
+            keep = None
+            if len(a.targets) == 1 and isinstance(a.targets[0], ast.Name) and isinstance(a.value, ast.BinOp) \
+                    and isinstance(a.value.op, ast.Add) and isinstance(a.value.left, ast.Name) \
+                    and a.value.left.id == a.targets[0].id and (a.targets[0].id, True) in facts:
+                keep = (a.targets[0].id, True)          # x = x + y keeps a non-empty x non-empty
             facts = self._kill(facts, names)
+            if keep:
+                facts = facts | {keep}
             if len(a.targets) == 1 and isinstance(a.targets[0], ast.Name) and a.targets[0].id in self.fact_vars:
                 t = const_truth(a.value)
                 if t is not None:
